@@ -232,12 +232,69 @@ fn run(ctx: &mut Ctx) {
     }
 }
 
+/// Thorough: second-order mutants MUT(MUT(s)) of the smallest programs - compensating pairs (a type changed in
+/// a declaration AND in a signature, two statements rewired together) are exactly where an acceptance check
+/// that looks at one place only gives in.
+fn run_pairs(ctx: &mut Ctx) {
+    if ctx.tier != Tier::Thorough {
+        return;
+    }
+    let progs = crate::sierra::pair_seeds();
+    let cfg = crate::sierra::PAIR_CFG;
+    for (name, p) in &progs {
+        let m1s = mutations(p, &cfg);
+        for (i1, m1) in m1s.iter().enumerate() {
+            ctx.case(
+                || json!({"space":"second-order-mutants","program":name,"first":m1.describe()}),
+                |ctx| {
+                    let q1 = apply(p, m1);
+                    for (i2, m2) in mutations(&q1, &cfg).iter().enumerate() {
+                        if !ctx.sub(|| json!({"program":name,"first":m1.describe(),"second":m2.describe()})) {
+                            continue;
+                        }
+                        let q = apply(&q1, m2);
+                        ctx.count("evaluations", 1);
+                        ctx.count("second_order_mutants", 1);
+                        let Ok(stage) = ctx.guarded(|| pipeline(&q, true)) else {
+                            ctx.count("pipeline_panics_left_to_C14", 1);
+                            continue;
+                        };
+                        if stage != Stage::Ok {
+                            continue;
+                        }
+                        let mut stats = CheckStats { states: 0, transitions: 0 };
+                        let verdict = check_program(&q, &mut stats);
+                        ctx.count("states", stats.states as i64);
+                        ctx.count("transitions", stats.transitions as i64);
+                        ctx.count("traces_validated_against_impl", 1);
+                        ctx.count("second_order_accepted", 1);
+                        ctx.distinct(&(name, i1, i2, "pair"));
+                        if let Err(why) = verdict {
+                            let kind = why.split(':').nth(1).unwrap_or(&why).trim().chars().filter(|c| !c.is_ascii_digit()).collect::<String>();
+                            ctx.violation(
+                                format!("accepted-but-ill-typed:{}", kind.chars().take(60).collect::<String>()),
+                                format!("compile accepts a second-order mutant the independent checker rejects: {why}"),
+                                json!({"program":name,"first":m1.describe(),"second":m2.describe(),"sierra": q.to_string()}),
+                            );
+                        }
+                    }
+                },
+            );
+        }
+    }
+}
+
+fn run_both(ctx: &mut Ctx) {
+    run(ctx);
+    run_pairs(ctx);
+}
+
 pub static C15: CheckDef = CheckDef {
     id: "C15",
     level: "model_checking",
-    rule: "[seed programs: the corpus plus the compiling wrapper programs of the C14 instantiation lattice (quick: every 4th)] Model: an independent abstract interpreter (no code shared with annotations.rs/references.rs) over states (statement index, map var -> type), exploring every control-flow path of every function with a worklist; libfunc signatures come from ProgramRegistry. Transfer: args must be live with exactly the parameter types and are consumed; results are added with the branch's types and may not override a live var; a statement reached twice must see the identical map and the same function; every target of a multi-branch invocation must be an alignment point; return needs exactly the declared types and nothing left over. Enumerated: the whole C14(a) single-point mutation space of the corpus programs + the unmutated programs + hand-broken negatives (vacuity guard). Conformance: for EVERY mutant both verdicts are computed; compile==Ok && checker==Err is the violation; states/transitions = abstract states and branch edges explored by the checker; traces_validated_against_impl = accepted programs on which both verdicts were compared; observed_outcomes is the 2x2 agreement matrix.",
+    rule: "[thorough adds second-order mutants MUT(MUT(s)) of the <=200 smallest programs (<=9 statements), ~10^7 programs] [seed programs: the corpus plus the compiling wrapper programs of the C14 instantiation lattice (quick: every 4th)] Model: an independent abstract interpreter (no code shared with annotations.rs/references.rs) over states (statement index, map var -> type), exploring every control-flow path of every function with a worklist; libfunc signatures come from ProgramRegistry. Transfer: args must be live with exactly the parameter types and are consumed; results are added with the branch's types and may not override a live var; a statement reached twice must see the identical map and the same function; every target of a multi-branch invocation must be an alignment point; return needs exactly the declared types and nothing left over. Enumerated: the whole C14(a) single-point mutation space of the corpus programs + the unmutated programs + hand-broken negatives (vacuity guard). Conformance: for EVERY mutant both verdicts are computed; compile==Ok && checker==Err is the violation; states/transitions = abstract states and branch edges explored by the checker; traces_validated_against_impl = accepted programs on which both verdicts were compared; observed_outcomes is the 2x2 agreement matrix.",
     assumptions: &["libfunc signatures as reported by ProgramRegistry are the specification of each operation's types (the property's own observation point)", "dup/drop legality is enforced by the registry's specialization and not re-derived"],
-    run,
+    run: run_both,
     stack_mb: 8,
     item_timeout_s: 120,
     wall_cap_s: (50, 1700),
